@@ -16,13 +16,13 @@ structure Entry where
   key : Key
   backend : Backend
   expire : Nat
-  deriving Repr, BEq, DecidableEq
+  deriving Repr, DecidableEq
 
 structure St where
   timeout : Nat            -- ns
   entries : List Entry     -- at most one per key
   nextClean : Nat
-  deriving Repr, BEq, DecidableEq
+  deriving Repr, DecidableEq
 
 def second : Nat := 1000000000
 
